@@ -515,6 +515,69 @@ func checkListener(c *Ctx, ce *chanEngine) {
 	var nilStore *ssa.Store
 	var rangeClose, lnClose, join, quitClose bool
 	quitClose = len(p.closeSitesIn(stop, quit)) > 0
+	// the snapshot may be taken by a helper (`ln, conns := l.detach()`): it loads the registry and sets it to nil under
+	// the mutex and returns what it loaded
+	var lnFromHelper ssa.Value
+	var markAt ssa.Instruction
+	eachInstr(stop, func(_ *ssa.BasicBlock, _ int, in ssa.Instruction) {
+		call, ok := in.(*ssa.Call)
+		if !ok || snap != nil {
+			return
+		}
+		g := call.Call.StaticCallee()
+		if g == nil || g.Blocks == nil || g.Pkg != stop.Pkg || g.Parent() != nil || g == stop {
+			return
+		}
+		var gsnap ssa.Value
+		var gnil *ssa.Store
+		eachInstr(g, func(_ *ssa.BasicBlock, _ int, y ssa.Instruction) {
+			switch x := y.(type) {
+			case *ssa.UnOp:
+				if x.Op == token.MUL {
+					if f, _ := fieldAddr(x.X); f == conns && le.heldAt(y)[mu] == lockWrite {
+						gsnap = x
+					}
+				}
+			case *ssa.Store:
+				if f, _ := fieldAddr(x.Addr); f == conns && isNilConst(x.Val) && le.heldAt(y)[mu] == lockWrite {
+					gnil = x
+				}
+			}
+		})
+		if gsnap == nil || gnil == nil {
+			return
+		}
+		ci, li := -1, -1
+		eachInstr(g, func(_ *ssa.BasicBlock, _ int, y ssa.Instruction) {
+			if r, ok := y.(*ssa.Return); ok {
+				for i, v := range returnedValues(r) {
+					if v == gsnap {
+						ci = i
+					}
+					if derives(v, func(w ssa.Value) bool { f, _ := fieldAddr(w); return f == ln }) {
+						li = i
+					}
+				}
+			}
+		})
+		for _, r := range *call.Referrers() {
+			if ex, ok := r.(*ssa.Extract); ok {
+				if ex.Index == ci {
+					snap = ex
+				}
+				if ex.Index == li {
+					lnFromHelper = ex
+				}
+			}
+		}
+		if ci == 0 && call.Call.Signature().Results().Len() == 1 {
+			snap = call
+		}
+		if snap != nil {
+			nilStore = gnil
+			markAt = in
+		}
+	})
 	eachInstr(stop, func(_ *ssa.BasicBlock, _ int, in ssa.Instruction) {
 		switch x := in.(type) {
 		case *ssa.UnOp:
@@ -534,7 +597,10 @@ func checkListener(c *Ctx, ce *chanEngine) {
 			}
 		case *ssa.Call:
 			if x.Call.IsInvoke() && x.Call.Method.Name() == "Close" {
-				if derives(x.Call.Value, func(v ssa.Value) bool { f, _ := fieldAddr(v); return f == ln }) {
+				if derives(x.Call.Value, func(v ssa.Value) bool {
+					f, _ := fieldAddr(v)
+					return f == ln || (lnFromHelper != nil && v == lnFromHelper)
+				}) {
 					lnClose = true
 				}
 				// key of a range over the snapshot
@@ -571,7 +637,11 @@ func checkListener(c *Ctx, ce *chanEngine) {
 			f, _ := chanFieldOf(u.X)
 			return f == done
 		}
-		early := findPath(posOf(nilStore), pathQuery{target: isReturn, avoid: isJoin})
+		from := posOf(nilStore)
+		if markAt != nil {
+			from = posOf(markAt)
+		}
+		early := findPath(from, pathQuery{target: isReturn, avoid: isJoin})
 		c.Check(early == nil, "R6", "Stop closes the connections and joins on every path", nilStore.Pos(), "every path from the stopped mark reaches the join", "a path returns from Stop after the registry was taken but before the connections are closed and the serving goroutine is joined ("+p.pathString(early)+"): after a Drain the second close of the listening socket fails, Stop returns that error, the established connections are never closed (the registry is already nil) and their handlers keep running")
 	}
 	// the backend connection of the Redis upstream: Stop closes the socket itself, unconditionally - a close that
